@@ -55,6 +55,47 @@ mod verif_c16 {
         assert!(!unsafe { NATURAL_REACHED });
         kani::cover!(va < 0 && vb > 9); kani::cover!(va == 10 && vb == 9);
     }
+    /// The same over the FULL range of integer arguments (every u128 and every i128): str::parse::<u128> / <i128> are
+    /// replaced by tables giving the names "p" and "q" two symbolic integers in [-2^127, 2^128) as (negative, magnitude),
+    /// each parse succeeding exactly when the value fits the type. Different values are ordered numerically, by the
+    /// integer branch alone (no float, no text comparison).
+    static mut INTS: [(bool, u128); 2] = [(false, 0); 2];
+    fn int_err() -> std::num::ParseIntError { "".parse::<u8>().unwrap_err() }
+    fn u128_table(s: &str) -> Result<u128, std::num::ParseIntError> {
+        let (neg, mag) = unsafe { INTS[(s.as_bytes()[0] - b'p') as usize] };
+        if !neg { Ok(mag) } else { Err(int_err()) }
+    }
+    fn i128_table(s: &str) -> Result<i128, std::num::ParseIntError> {
+        let (neg, mag) = unsafe { INTS[(s.as_bytes()[0] - b'p') as usize] };
+        if !neg { if mag <= i128::MAX as u128 { Ok(mag as i128) } else { Err(int_err()) } }
+        else if mag <= (1u128 << 127) { Ok((mag as i128).wrapping_neg()) } else { Err(int_err()) }
+    }
+    #[kani::proof]
+    #[kani::unwind(6)]
+    #[kani::stub(<u128 as std::str::FromStr>::from_str, u128_table)]
+    #[kani::stub(<i128 as std::str::FromStr>::from_str, i128_table)]
+    #[kani::stub(<f64 as std::str::FromStr>::from_str, no_float)]
+    #[kani::stub(crate::util::sort::natural_cmp, natural_recorder)]
+    fn int_arg_names_full_range() {
+        static NAMES: [&str; 2] = ["p", "q"];
+        let (na, ma): (bool, u128) = kani::any(); let (nb, mb): (bool, u128) = kani::any();
+        // negative values: -1 ..= -2^127 (a negative zero is not a different value from zero)
+        kani::assume(!na || (ma >= 1 && ma <= (1u128 << 127)));
+        kani::assume(!nb || (mb >= 1 && mb <= (1u128 << 127)));
+        unsafe { INTS = [(na, ma), (nb, mb)]; }
+        let want = match (na, nb) {
+            (false, false) => ma.cmp(&mb), (true, true) => mb.cmp(&ma),
+            (true, false) => Ordering::Less, (false, true) => Ordering::Greater,
+        };
+        kani::assume(want != Ordering::Equal);
+        let got = SortingAttr::Name.cmp_bench_arg_names(&NAMES[0], &NAMES[1]);
+        assert!(got == want, "[C16] integer arguments of different value are ordered by value over the whole u128 / i128 range");
+        let rev = SortingAttr::Kind.cmp_bench_arg_names(&NAMES[1], &NAMES[0]);
+        assert!(rev == want.reverse(), "[C16] and symmetrically with the arguments exchanged");
+        assert!(!unsafe { NATURAL_REACHED }, "[C16] integers of different value are never ordered as text");
+        kani::cover!(!na && ma > i128::MAX as u128 && !nb && mb > i128::MAX as u128);
+        kani::cover!(na && ma == (1u128 << 127) && !nb);
+    }
     /// float arguments sort by value; a name that parses as a float without a value (NaN) is ordered as text, like any
     /// non-numeric name. str::parse::<f64> is replaced by a table: the names "p" and "q" parse to two symbolic floats.
     static mut VALS: [f64; 2] = [0.0; 2];
@@ -335,6 +376,7 @@ def build(S: Sources) -> Unit:
     hs = [
         KaniHarness("verif_c16::int_arg_names_by_value", "bounded", bound="integer names of 1-2 digits with optional minus sign (every pair of different value)",
                     covers="SortingAttr::cmp_bench_arg_names (integer arguments, name and kind attributes)"),
+        KaniHarness("verif_c16::int_arg_names_full_range", "complete", covers="SortingAttr::cmp_bench_arg_names (integer arguments over the whole u128 / i128 range; str::parse::<u128> / <i128> replaced by tables of symbolic values that succeed exactly when the value fits the type)"),
         KaniHarness("verif_c16::float_arg_names_by_value", "bounded", bound="two one-letter names whose float value is any pair of f64 (NaN and infinities included); str::parse::<f64> replaced by a table",
                     covers="SortingAttr::cmp_bench_arg_names (float arguments, NaN fallback)"),
         KaniHarness("verif_c16::location_is_declaration_order", "bounded", bound="three argument slots", covers="SortingAttr::cmp_bench_arg_names (location)"),
